@@ -12,7 +12,7 @@ KF=$(python3 -c "
 import json
 d=json.load(open('/verif/known-findings.json'))
 print(','.join(e['id'] for e in d['findings'] if e['status']=='open'))")
-VP_KF=$KF VP_STATS_DIR=$D VP_VERIF=/verif VP_SAN=/verif/build/san VP_BIN=/verif/build/bin ASAN_OPTIONS=detect_leaks=1:allocator_may_return_null=1:detect_odr_violation=0 UBSAN_OPTIONS=print_stacktrace=1:halt_on_error=1 timeout 3000 /verif/build/bin/$T -runs=$RUNS -max_len=4096 -len_control=0 -seed=$SEED -verbosity=0 -print_final_stats=1 -timeout=60 "$@" corp > log 2>&1
+VP_KF=$KF VP_STATS_DIR=$D VP_VERIF=/verif VP_SAN=/verif/build/san VP_BIN=/verif/build/bin ASAN_OPTIONS=detect_leaks=1:allocator_may_return_null=1:detect_odr_violation=0 UBSAN_OPTIONS=print_stacktrace=1:halt_on_error=1 timeout 3000 /verif/build/bin/$T -runs=$RUNS -max_len=4096 -len_control=0 -seed=$SEED -verbosity=0 -print_final_stats=1 -timeout=60 -detect_leaks=${DETECT_LEAKS:-1} "$@" corp > log 2>&1
 grep -E "stat::number_of_executed|average_exec|peak_rss" log
 grep -A25 "==VP== ORACLE VIOLATION" log | head -60
 grep -E "ERROR: AddressSanitizer|runtime error|assertion failed|should not have been reached|ERROR: LeakSanitizer|ERROR: libFuzzer" log | head -5
